@@ -796,7 +796,7 @@ def run(chk):
                             "entry_args": sum(len(al) for _, al in isec["E"]),
                             "traces": sum(len(v) for v in isec["T"].values()), "push_events": isec["nA"]})
 
-    if tie_broken and not found_concrete:
+    if tie_broken and not (found_concrete and chk.has_new_concrete()):
         pr, d, mode = tie_broken[0]
         rd = chk.replay_dir("tie")
         with open(os.path.join(rd, "replay.txt"), "w") as f:
